@@ -314,6 +314,7 @@ pub fn exec(prop: &str, case: &Case) -> Outcome {
                         crate::restart::Mutation::Version { .. } => "corrupt.version_field",
                         crate::restart::Mutation::FixChecksum => "corrupt.checksum_recomputed_over_garbage",
                         crate::restart::Mutation::Downgrade { .. } => "corrupt.downgraded_to_version_1_or_2",
+                        crate::restart::Mutation::TrailerFrom { .. } => "corrupt.trailer_replaced_by_related_value",
                     },
                     1,
                 ));
@@ -456,11 +457,13 @@ pub fn exec(prop: &str, case: &Case) -> Outcome {
                 detail: serde_json::json!({
                     "keys": mc.fam.n, "map": mc.map, "cache_geometry": mc.registry.map(|r| vec![r.0, r.1]),
                     "fanout": mc.fam.fanout, "key_length": mc.fam.keylen, "prefix_pairs": mc.fam.pairs, "leaf_fan": mc.fam.leaf_fan, "decreasing_values": mc.fam.decreasing,
+                    "section_vocabulary": mc.fam.sec_vocab, "section_parents": mc.fam.sec_parents, "rejected_inserts_after_each_key": mc.rejects, "one_run_of_rejected_inserts_at_half_way": mc.reject_run,
                     "bound_bytes": run.bound, "live_after_new": run.after_new,
                     "max_live_at_checkpoints": run.max_live,
                     "live_at_first_tenth": run.live_at_tenth, "live_at_end": run.live_at_end,
                     "growth_over_last_nine_tenths": run.live_at_end - run.live_at_tenth,
                     "bytes_emitted": run.bytes_emitted, "allocations": run.allocs,
+                    "legal_inserts_refused_by_builder": run.refused, "cut_short_by_builder_error": run.cut_short,
                 }),
             }
         }
